@@ -156,6 +156,7 @@ type fp struct {
 	crashOut  string
 	mayEnd    bool
 	labelsOut string
+	since     []string // labels of the writes done since the counter was armed
 }
 
 func label(layer, name string, key []byte) string {
@@ -202,11 +203,13 @@ func (f *fp) hook(layer, name string, key []byte) {
 		f.count++
 		if f.count == f.crashJ {
 			// the process dies here: no deferred function, no flush, no close
+			// (what this process wrote since the crash counter was armed, then the write it dies before)
 			if f.crashOut != "" {
-				ioutil.WriteFile(f.crashOut, []byte(l+"\n"), 0644)
+				ioutil.WriteFile(f.crashOut, []byte(strings.Join(append(append([]string{}, f.since...), l), "\n")+"\n"), 0644)
 			}
 			os.Exit(137)
 		}
+		f.since = append(f.since, l)
 	}
 	f.labels = append(f.labels, l)
 }
@@ -334,11 +337,28 @@ func runNode(dir string, upto int64, planFile string, crash string, labelsOut, c
 		rlp.DecodeBytes(res.Data, &n)
 		return n
 	}
+	// ... and once everything of the batches before it has taken effect: transactions of different
+	// accounts have no order inside a block (the pool reaps its accounts in map order), so a call
+	// offered while the creation it depends on is still pending could run first - in the reference run
+	// as well as after a crash - and the two runs would end in different states for no fault of the node
+	applied := func(upTo int) bool {
+		for _, batch := range plan[:upTo] {
+			for _, t := range batch {
+				fs := strings.Fields(t)
+				from, _ := strconv.Atoi(fs[1])
+				n, _ := strconv.ParseUint(fs[2], 10, 64)
+				if nonce(from) <= n {
+					return false
+				}
+			}
+		}
+		return true
+	}
 	deadline := time.Now().Add(60 * time.Second)
 	fed := 0
 	for time.Now().Before(deadline) {
 		h := node.Angine.Height()
-		for fed < len(plan) && int64(fed) <= h {
+		for fed < len(plan) && int64(fed) <= h && applied(fed) {
 			for _, t := range plan[fed] {
 				node.Angine.BroadcastTx(w.tx(t, dir))
 			}
@@ -357,14 +377,19 @@ func runNode(dir string, upto int64, planFile string, crash string, labelsOut, c
 		}
 		// a transaction that was offered before a crash may have been lost with the mempool
 		if fed == len(plan) && node.Angine.GetNumUnconfirmedTxs() == 0 && !done {
-			for _, batch := range plan {
+			for _, batch := range plan { // the earliest batch with something missing, nothing later (see above)
+				missing := false
 				for _, t := range batch {
 					fs := strings.Fields(t)
 					from, _ := strconv.Atoi(fs[1])
 					n, _ := strconv.ParseUint(fs[2], 10, 64)
 					if n >= nonce(from) {
 						node.Angine.BroadcastTx(w.tx(t, dir))
+						missing = true
 					}
+				}
+				if missing {
+					break
 				}
 			}
 		}
